@@ -22,6 +22,7 @@ class C06(runner.Check):
 	prop_id = "C06"
 	level = "exploration"
 	hang_s = 300
+	isolate_cases = True      # module-level state of the code under test must not leak between cases
 	rule = ("One evaluation = one session on a shared generated model: 4-14 operations "
 		"drawn from {deep_lift_shap over a subset/permutation/duplication of the example "
 		"set with a seeded batch_size (biased to 1, n_shuffles-1, n_shuffles, "
